@@ -346,7 +346,7 @@ inductive PlanErr
   | reduceMissing | reduceNone | reduceTypeMix | reduceNonNumeric | reduceBadType | reduceOptional
   | redNoPeriod | redFallbackNotStatic | redNoSources | redNoUrn | alignNonNumeric
   | appendDup | dropAll | dropMissing | selectEmpty | selectDup | replaceMissing | overrideConflict
-  | whereNonBool | whereOptional | staticEmpty | staticDup | joinDup | todsNotFound
+  | replaceDup | whereNonBool | whereOptional | staticEmpty | staticDup | joinDup | todsNotFound
   deriving DecidableEq, Repr, Inhabited
 
 /-- tsquery_utils.go:12-30 `MergeCustomMeta` (override wins on key conflicts). -/
@@ -578,14 +578,17 @@ def reduceCheckRest (dt : DataType) : List FieldMeta → Except PlanErr Unit
 
 def allSameUnit (u : String) (ms : List FieldMeta) : Bool := ms.all (fun m => m.unit == u)
 
+/-- "Verify all requested fields were found" reduce_field_report_value.go:59-77 (`n` = number of fields found) -/
+def reduceIsMissing (urns : Option (List String)) (n : Nat) : Bool :=
+  match urns with
+  | none => false
+  | some us => n != us.eraseDups.length
+
 /-- reduce_field_report_value.go:38-141 -/
 def reduceR (rt : RedType) (urns : Option (List String)) (fms : List FieldMeta) :
     Except PlanErr (Planned (List (Val D)) D) :=
   let picked := reducePick urns fms
-  let missing := match urns with
-    | none => false
-    | some us => picked.length != us.eraseDups.length
-  if missing then .error .reduceMissing
+  if reduceIsMissing urns picked.length then .error .reduceMissing
   else match picked with
     | [] => .error .reduceNone
     | (m0, _) :: rest =>
